@@ -147,6 +147,14 @@ Lemma api_stop_fr s r s' o : api_stop (run f) s = (r, s', o) -> fuel_ok o = true
 Proof. intros H Hf. unfold api_stop in H. mi H; fuel_split; use_ih; fr_done. Qed.
 Lemma api_commit_fr s r s' o : api_commit s = (r, s', o) -> Fr s s' /\ no_idx o.
 Proof. intro H. unfold api_commit in H. mi H; use commit_fr; fr_done. Qed.
+Lemma api_shutdown_fr s r s' o : api_shutdown (run f) s = (r, s', o) -> fuel_ok o = true -> Fr s s' /\ no_idx o.
+Proof.
+  intros H Hf. unfold api_shutdown in H. mi H; split_state_if; fuel_split; use_ih; try (solve [fr_done]).
+  (* the held-back outcomes of this call are emitted, the list found at entry is put back *)
+  all: match goal with K : Fr _ ?b |- _ => destruct K as [r2 d2 p2 i2 a2 c2 f2 l2 q2] end; unfold parked, rcall_active in *; psimpl.
+  all: split; [ constructor; unfold parked, rcall_active; psimpl; auto
+              | unfold no_idx in *; repeat rewrite retry_idxs_app; rewrite ?q2; repeat match goal with N : retry_idxs _ = [] |- _ => rewrite N end; reflexivity ].
+Qed.
 Lemma handle_commit_error_fr fk i a s r s' o :
   handle_commit_error (run f) fk i a s = (r, s', o) -> fuel_ok o = true -> Fr s s' /\ no_idx o.
 Proof.
@@ -174,6 +182,7 @@ Ltac specs :=
   use commit_fr; use auto_commit_fr; use proc_chain_fr; use pop_plan_fr; use interrupted_fr; use stop_mblock_fr;
   use stop_rcall_fr; use stop_ccall_fr; use stop_looper_fr; use stop_susp_fr; use stop_startd_fr; use api_commit_fr;
   repeat match goal with
+  | E : api_shutdown _ _ = _, Hf : fuel_ok _ = true |- _ => apply api_shutdown_fr in E; [destruct E | exact Hf]
   | E : stop_req _ = _ |- _ => apply stop_req_fr in E; [destruct E | reflexivity]
   | E : emit_shutd _ _ = _ |- _ => apply emit_shutd_fr in E; [destruct E | intros ? ?; try discriminate; match goal with |- context [match ?x with _ => _ end] => destruct x end; discriminate]
   | E : api_stop _ _ = _, Hf : fuel_ok _ = true |- _ => apply api_stop_fr in E; [destruct E | exact Hf]
